@@ -337,6 +337,17 @@ F('memory beacon colour taken from the first Exit', ['C12'], ['C12.R2'], R,
 C('memory beacon found through map', ['C12', 'C01'], R,
   '    grid_objects = (\n        next_state.grid[position]\n        for position in next_state.grid.area.positions()\n    )\n    beacon_color = next(\n        grid_object.color\n        for grid_object in grid_objects\n        if isinstance(grid_object, Beacon)\n    )',
   '    grid = next_state.grid\n    beacons = (\n        grid_object\n        for grid_object in map(grid.__getitem__, grid.area.positions())\n        if isinstance(grid_object, Beacon)\n    )\n    beacon_color = next(beacons).color')
+F('dijkstra loses the lower row bound (numpy wraps)', ['C12'], ['C12.R6'], R,
+  '                0 <= y_new < layout_array.shape[0]', '                y_new < layout_array.shape[0]')
+F('dijkstra bounds the column by the number of rows', ['C12'], ['C12.R6'], R,
+  '                and 0 <= x_new < layout_array.shape[1]', '                and 0 <= x_new < layout_array.shape[0]')
+F('dijkstra steps diagonally', ['C12'], ['C12.R6'], R,
+  'for dy, dx in [(-1, 0), (1, 0), (0, -1), (0, 1)]:', 'for dy, dx in [(-1, 0), (1, 0), (0, -1), (1, 1)]:')
+F('dijkstra walks through blocked cells', ['C12'], ['C12.R6'], R,
+  '                and layout_array[y_new, x_new]\n', '')
+C('dijkstra with split bounds tests', ['C12', 'C01', 'C03'], R,
+  '                0 <= y_new < layout_array.shape[0]\n                and 0 <= x_new < layout_array.shape[1]',
+  '                y_new >= 0 and y_new < layout_array.shape[0]\n                and x_new >= 0 and x_new < len(layout_array[0])')
 F('distance helper reads the enclosing state', ['C12'], ['C12.R1'], R,
   '    def _distance_agent_object(state):\n        object_position = mitt.one(\n            position\n            for position in state.grid.area.positions()\n            if isinstance(state.grid[position], object_type)\n        )\n        return distance_function(state.agent.position, object_position)',
   '    def _distance_agent_object(s):\n        object_position = mitt.one(\n            position\n            for position in state.grid.area.positions()\n            if isinstance(state.grid[position], object_type)\n        )\n        return distance_function(state.agent.position, object_position)')
